@@ -235,6 +235,42 @@ def make_tracker(cfg):
     return getattr(T, name)()
 
 
+def _logged_tracker(t):
+    """the same tracker object with its four update methods logged as C-events before they run (behaviour-free subclass):
+    TrkAcc(node, class) / TrkBlk(node, destination, customer, previous class) / TrkRel(node, destination (0 = exit), customer,
+    previous class, blocked) / TrkChg(node, previous class, class)"""
+    base = type(t)
+
+    def cls_ix(c):
+        try:
+            return cid(c)
+        except Exception:
+            return -1
+
+    class Logged(base):
+        def change_state_accept(s, node, ind):
+            OBS.ev('TrkAcc', node.id_number, cls_ix(ind.customer_class))
+            return super().change_state_accept(node, ind)
+
+        def change_state_block(s, node, destination, ind):
+            OBS.ev('TrkBlk', node.id_number, destination.id_number, ind.id_number, cls_ix(ind.previous_class))
+            return super().change_state_block(node, destination, ind)
+
+        def change_state_release(s, node, destination, ind, blocked):
+            d = destination.id_number
+            OBS.ev('TrkRel', node.id_number, d if isinstance(d, int) and 1 <= d <= len(node.simulation.transitive_nodes) else 0, ind.id_number,
+                   cls_ix(ind.previous_class), 1 if blocked else 0)
+            return super().change_state_release(node, destination, ind, blocked)
+
+        def change_state_classchange(s, node, ind):
+            OBS.ev('TrkChg', node.id_number, cls_ix(ind.previous_class), cls_ix(ind.customer_class))
+            return super().change_state_classchange(node, ind)
+    Logged.__name__ = base.__name__
+    Logged.__qualname__ = base.__qualname__
+    t.__class__ = Logged
+    return t
+
+
 def make_sim(cfg, network=None, traced=True):
     if network is None:
         network = make_network(cfg)
@@ -244,6 +280,8 @@ def make_sim(cfg, network=None, traced=True):
         kw['deadlock_detector'] = ciw.deadlock.StateDigraph()
     tr = make_tracker(cfg)
     if tr is not None:
+        if traced:
+            tr = _logged_tracker(tr)
         kw['tracker'] = tr
     if cfg.get('exact'):
         kw['exact'] = cfg['exact']
